@@ -417,6 +417,13 @@ def main(run):
     dotF["name"], dotF["opts"]["frozen"] = "AliasDotF", True
     tasks.append({"rec": dot, "recF": dotF, "depth": d, "tier": run.tier, "max_states": 600})
     tasks.append({"rec": G.single("nums", "mut", post_copy=True), "depth": d, "tier": run.tier, "max_states": 600})
+    tasks.append({"rec": G.single("nums", "mut", post_copy="assigns"), "depth": d, "tier": run.tier, "max_states": 600})
+    # attributes served by a property whose setter writes a private attribute: the write happens in USER code, on the private copy
+    tasks.append({"rec": {"name": "SetterInt", "attrs": [{"kind": "int", "default": "none", "prop": "setter"}, {"kind": "nums", "default": "mut"}], "opts": {}},
+                  "depth": d, "tier": run.tier, "max_states": 600})
+    tasks.append({"rec": {"name": "SetterNums", "attrs": [{"kind": "nums", "default": "none", "prop": "setter"}, {"kind": "int", "default": "lit"}], "opts": {}},
+                  "depth": d, "tier": run.tier, "max_states": 600})
+    tasks.append({"rec": G.composite("FrozenPostCopyAssigns", [("int", "lit"), ("leaf", "mut")], post_copy="assigns"), "depth": d, "tier": run.tier, "max_states": 600})
     tasks.append({"rec": G.composite("FrozenPostCopy", [("int", "lit"), ("leaf", "mut"), ("kids", "mut")], post_copy=True), "depth": d, "tier": run.tier, "max_states": 600})
     for rec in alias_records():
         tasks.append({"rec": rec, "depth": d, "tier": run.tier, "max_states": 600, "module": "props.c07", "prop": PROP})
